@@ -22,6 +22,39 @@ RowClosingOps == {"end_row", "write_row", "finish", "finish_one", "finish_error"
 \* a refused write_col that the shim handles instead of propagating it with `?` ("cont" in the scenario)
 Handled(x) == x.res = "err" /\ x.op.op = "write_col" /\ "cont" \in DOMAIN x.op /\ x.op.cont
 
+\* ---- was a refusal justified? ----
+\* Refusals come back as InvalidData / Other; other kinds are connection errors and are judged elsewhere.
+KindOf(x) == IF "kind" \in DOMAIN x THEN x.kind ELSE "InvalidData"
+RustInts == {"i8", "u8", "i16", "u16", "i32", "u32", "i64", "u64", "isize", "usize"}
+\* x = a refused call (res = "err"), cur = the row-writer state it met: violations if the call had to be accepted
+Refusal(x, cur, ctx) ==
+  LET o == x.op
+      nc == Len(cur.cols)
+      k == Len(cur.cells) + 1
+  IN
+  IF KindOf(x) \notin {"InvalidData", "Other"} THEN {}
+  ELSE IF o.op = "write_col" THEN
+     (IF nc = 0 THEN {V("C03", ctx.at, "write_col refused in a zero-column resultset")}
+      ELSE IF ~ctx.bin THEN
+           \* (generic Value::Date / Value::Time may hold what is no date or a negative time: refusable)
+           (IF o.v.k = "myc" /\ o.v.c.t \in {"date", "dt", "time"} THEN {}
+            ELSE {V("C06", ctx.at, "a value the shim wrote in answer to a text query was refused")})
+      ELSE IF k > nc THEN {}
+      ELSE IF o.v.c.t = "null" THEN
+           (IF IsNotNull(cur.cols[k].fl) THEN {} ELSE {V("C07", ctx.at, "NULL refused for a nullable column")})
+      ELSE IF o.v.c.t = "int" THEN
+           (IF cur.cols[k].ty \in IntCols /\ o.v.k \in RustInts /\ MustAccept(o.v.k, MathOf(o.v.c.le, o.v.c.s), cur.cols[k].ty, cur.cols[k].fl)
+            THEN {V("C07", ctx.at, "an integer was refused although the column's range contains it"),
+                  V("C15", ctx.at, "integer refused although the column's range contains it (row writer)")} ELSE {})
+      ELSE IF o.v.c.t \in {"bytes", "f32", "f64", "date", "dt"} /\ Compat(o.v.c, cur.cols[k].ty) = "carries"
+           THEN {V("C07", ctx.at, "a value was refused although its column type carries it")}
+      ELSE {})
+  ELSE IF o.op = "write_row" /\ ~ctx.bin /\ (nc = 0 \/ Len(cur.cells) + Len(o.vs) = nc)
+     THEN {V("C06", ctx.at, "a row of the declared shape was refused in a text resultset")}
+  ELSE IF o.op = "end_row" /\ (nc = 0 \/ Len(cur.cells) = nc)
+     THEN {V("C03", ctx.at, "end_row refused for a row of the declared shape")}
+  ELSE {}
+
 RECURSIVE Den(_, _, _, _, _, _)
 \* walk: i-th op; cur row-writer state; units so far; viol so far; isBin; at = trace position
 \* returns [units, viol, allok]
@@ -36,11 +69,11 @@ Den(prog, i, cur, units, viol, ctx) ==
   IF Handled(prog[i]) THEN
      \* a refused write_col that the shim handles (it carries on with the same row writer): the call
      \* must have left nothing behind, so the program means what it means without it
-     Den(prog, i + 1, cur, units, viol, ctx)
+     Den(prog, i + 1, cur, units, viol \cup Refusal(prog[i], cur, ctx), ctx)
   ELSE IF res # "ok" THEN
      \* the program stops at the first refused call; a panic is never a conformant refusal
      [units |-> units,
-      viol |-> viol \cup (IF res = "panic" THEN {V(IF name \in {"write_col", "write_row"} /\ ctx.bin THEN "C07" ELSE "C03", ctx.at, "writer call panicked: " \o name)} ELSE {})]
+      viol |-> viol \cup (IF res = "err" THEN Refusal(prog[i], cur, ctx) ELSE {}) \cup (IF res = "panic" THEN {V(IF name \in {"write_col", "write_row"} /\ ctx.bin THEN "C07" ELSE "C03", ctx.at, "writer call panicked: " \o name)} ELSE {})]
   ELSE IF name = "start" THEN Den(prog, i + 1, [cols |-> o.cols, cells |-> << >>, rows |-> << >>, n0 |-> 0], units, viol, ctx)
   ELSE IF name = "write_col" THEN
      IF nc = 0 THEN Den(prog, i + 1, cur, units, viol, ctx)
@@ -155,7 +188,8 @@ UnitCmp(d, e, bin, at) ==
      LET v0 == ColsCmp(d.cols, e.cols, at)
                 \cup (IF d.term # e.term THEN {V("C03", at, "resultset terminator differs")} ELSE {})
                 \cup (IF d.term = "err" /\ e.term = "err" THEN ErrCmp(d.err, e.kind, e.msg, at) ELSE {})
-                \cup (IF Len(d.rows) # Len(e.rows) THEN {V("C03", at, "number of rows differs")} ELSE {})
+                \cup (IF Len(d.rows) # Len(e.rows) THEN {V("C03", at, "number of rows differs"),
+                                                           V(IF bin THEN "C07" ELSE "C06", at, "the client decodes a different number of rows than the shim wrote")} ELSE {})
      IN IF Len(d.rows) # Len(e.rows) \/ Len(d.cols) # Len(e.cols) THEN [viol |-> v0, floats |-> << >>]
         ELSE LET r == RowsCmp(d.rows, e.rows, 1, d.cols, bin, at, [viol |-> {}, floats |-> << >>]) IN
              [viol |-> v0 \cup r.viol, floats |-> r.floats]
